@@ -67,6 +67,21 @@ CLAIMED = {
             'clean close/reopen for the file backend) run against fresh MemoryPersister and FilePersister objects under ASan/UBSan; each result is compared with a map model.',
             'Sequence number 0 is only generated for put; messages <= Persister::MaxMsgLen; reopen histories start with a control store (the other order is C27\'s subject); '
             'the optional BDB/memcached/redis backends are compiled out in this build.', '4/C26 and 10'),
+    'C15': ('E1', 'exploration', 'property-based testing (Hypothesis): metamorphic relation over chunk schedules + generated preamble corruptions against the real FIXReader on an in-memory socket',
+            'Generated protocol-valid streams (1-12 messages up to the 8172-byte body limit, both FIX versions) are delivered to the real FIXReader/Connection through an in-memory '
+            'Poco socket implementation under generated chunk schedules (all-ones, inside the preamble, inside BodyLength/CheckSum) in the coroutine and the threaded model; the strings '
+            'handed to Session::process must equal the sent messages for every chunking. One of 17 preamble corruptions after k good messages must stop the reader with an error and '
+            'hand over nothing but the k good messages. ASan/UBSan on.',
+            'The session above the reader is a logged-on initiator fed a protocol-valid stream; corruptions are the listed ones only (a numeric in-range but wrong BodyLength is not generated).', '4/C15 and 10.7'),
+    'C16': ('E1', 'exploration', 'model-based property-based testing (Hypothesis): generated session histories against a sequence-number model, checked after every step',
+            'Histories of sends, batches, inbound traffic that makes the session answer (TestRequest, undecodable message, ResendRequest), supervision ticks on a virtual clock and restarts on '
+            'the same store run against the real Session/Connection/FIXWriter (initiator and acceptor, memory and file persister, default/configured/recovered start numbers, short socket writes); '
+            'every new outbound message must carry the model number and the persisted control record must equal the session numbers after every step.',
+            'Counterparty always in sequence; a gap-fill that announces NewSeqNo n moves the expected numbering to n (C18 semantics).', '4/C16 and 10.7'),
+    'C17': ('E1', 'exploration', 'model-based property-based testing (Hypothesis): stored copy vs transmitted bytes over generated session histories',
+            'Same histories as C16; the socket byte stream is framed independently and for every new application message Persister::get(n) must return exactly the transmitted bytes, '
+            'for every administrative message number it must fail; probed before every restart and at the end.',
+            'Retransmissions and gap-fills are not new messages; numbers never used are not probed.', '4/C17 and 10.7'),
 }
 
 
